@@ -184,7 +184,7 @@ class _State:
         return s
 
     def tick(self, key):
-        n = self.counters.get(key, 0)
+        n = self.counters.get(key, self.counters.get("__base__", 0))
         self.counters[key] = n + 1
         return n
 
@@ -217,6 +217,8 @@ class Summariser:
         if bindings:
             for k, v in bindings.items():
                 st.env.setdefault(k, v)
+            # ordinals of a closure's own events must not collide with captured terms of the enclosing function
+            st.counters["__base__"] = 100
         results = self.block(fi.node.body, st)
         paths = []
         for s, out in results:
